@@ -509,6 +509,20 @@ impl<'de, R: Read<'de>> Parser<R> {
         }
     }
 
+    /// Parse a number token, with its sign if `pos` is `None`. The literal
+    /// must make up the whole token, i.e. be followed by a delimiter or the
+    /// end of input.
+    fn number_token(&mut self, radix: u8, pos: Option<bool>) -> Result<Token> {
+        let number = match pos {
+            Some(pos) => self.parse_num_literal(radix, pos)?,
+            None => self.parse_radix_literal(radix)?,
+        };
+        match self.peek()? {
+            Some(c) if !is_delimiter(c) => Err(self.peek_error(ErrorCode::InvalidNumber)),
+            _ => Ok(Token::Number(number)),
+        }
+    }
+
     fn parse_token(&mut self, peek: u8) -> Result<Token> {
         let token = match peek {
             b'#' => {
@@ -532,10 +546,10 @@ impl<'de, R: Read<'de>> Parser<R> {
                         self.expect_ident(b"8")?;
                         Token::ByteVecOpen(b')')
                     }
-                    Some(b'b') => Token::Number(self.parse_radix_literal(2)?),
-                    Some(b'o') => Token::Number(self.parse_radix_literal(8)?),
-                    Some(b'd') => Token::Number(self.parse_radix_literal(10)?),
-                    Some(b'x') => Token::Number(self.parse_radix_literal(16)?),
+                    Some(b'b') => self.number_token(2, None)?,
+                    Some(b'o') => self.number_token(8, None)?,
+                    Some(b'd') => self.number_token(10, None)?,
+                    Some(b'x') => self.number_token(16, None)?,
                     Some(b'\\') => Token::Char(self.read.parse_r6rs_char(&mut self.scratch)?),
                     Some(b'%') if self.options.racket_hash_percent_symbols => {
                         let name = self.parse_symbol_suffix("#%")?;
@@ -552,7 +566,7 @@ impl<'de, R: Read<'de>> Parser<R> {
                     let name = self.parse_symbol_suffix("-")?;
                     self.name_token(name)
                 } else {
-                    Token::Number(self.parse_num_literal(10, false)?)
+                    self.number_token(10, Some(false))?
                 }
             }
             b'+' => {
@@ -562,7 +576,7 @@ impl<'de, R: Read<'de>> Parser<R> {
                     let name = self.parse_symbol_suffix("+")?;
                     self.name_token(name)
                 } else {
-                    Token::Number(self.parse_num_literal(10, true)?)
+                    self.number_token(10, Some(true))?
                 }
             }
             b'0'..=b'9' => {
@@ -575,7 +589,7 @@ impl<'de, R: Read<'de>> Parser<R> {
                         _ => self.name_token(symbol),
                     }
                 } else {
-                    Token::Number(self.parse_num_literal(10, true)?)
+                    self.number_token(10, Some(true))?
                 }
             }
             b'"' => {
